@@ -104,7 +104,13 @@ type crashObsOut struct {
 	PostFails []string `json:"post_fails"`
 	PreLen    int      `json:"pre_len"`
 	PostLen   int      `json:"post_len"`
+	Reported  string   `json:"reported,omitempty"` // fault mode: what the operation reported
+	Panic     string   `json:"panic,omitempty"`
 }
+
+// faultHandled is the exit status of a child that received the injected write error and
+// finished the operation.
+const faultHandled = 78
 
 func childMain(args []string) {
 	switch args[0] {
@@ -122,8 +128,36 @@ func childMain(args []string) {
 		for i, op := range hist {
 			out.Marks = append(out.Marks, crash.Count())
 			os.WriteFile("c19_progress", []byte(fmt.Sprint(i)), 0o644)
+			before := append([]*types.Group{}, m.list...)
 			s := applyOp(m, op)
 			out.Steps = append(out.Steps, s)
+			if crash.Failed() {
+				// an injected write error was delivered inside this operation and the process lives
+				// on: the chain must now be the list before the operation or the list after it
+				// ("at all times"), whatever the operation reported to its caller
+				crash.Disarm()
+				mm := &refGroups{list: before}
+				var mids [][]*types.Group
+				if op == opRm2 {
+					mids = append(mids, append([]*types.Group{}, before[:len(before)-1]...))
+				}
+				pureStep(mm, op)
+				o := crashObsOut{PreLen: len(before), PostLen: len(mm.list), Reported: s.Err, Panic: s.Panic}
+				for _, f := range checkAgainst(before) {
+					o.PreFails = append(o.PreFails, fmt.Sprintf("%s: %s", clauseName[f.Clause], f.Msg))
+				}
+				for _, f := range checkAgainst(mm.list) {
+					o.PostFails = append(o.PostFails, fmt.Sprintf("%s: %s", clauseName[f.Clause], f.Msg))
+				}
+				for _, mid := range mids {
+					if len(checkAgainst(mid)) == 0 {
+						o.PostFails = nil
+					}
+				}
+				b, _ := json.Marshal(o)
+				os.WriteFile("obs_live.json", b, 0o644)
+				os.Exit(faultHandled)
+			}
 			if !s.Accepted {
 				fmt.Fprintf(os.Stderr, "crash history op %d (%s) not accepted: %s %s\n", i, op, s.Err, s.Panic)
 				os.Exit(3)
@@ -176,9 +210,64 @@ func childMain(args []string) {
 	os.Exit(3)
 }
 
+// faultPoint: physical write p of the history returns an error instead of writing and the
+// process continues; the chain is observed in the same process right after the operation and
+// again by a restarted process.
+func faultPoint(c *fw.Ctx, hist []string, csv string, p int, ro *crashRunOut, seq int) {
+	d := filepath.Join(c.Scratch, fmt.Sprintf("c19fault%d", seq))
+	os.MkdirAll(d, 0o755)
+	defer os.RemoveAll(d)
+	cs := crashCase{Hist: hist, CrashAt: p, Fault: true}
+	code, out := runCrashChild(d, []string{fmt.Sprintf("VERIF_FAIL_AT=%d", p)}, "run", csv, "out.json")
+	c.Eval(1)
+	step := 0
+	if pb, err := os.ReadFile(filepath.Join(d, "c19_progress")); err == nil {
+		fmt.Sscan(string(pb), &step)
+	}
+	within := p - ro.Marks[step]
+	if hist[step] == opRm2 {
+		if per := (ro.Marks2(step) + 1) / 2; per > 0 {
+			within = (within-1)%per + 1
+		}
+	}
+	where := fmt.Sprintf("%s:write%d", opClass(hist[step], true), within)
+	if code != faultHandled {
+		c.Violation("C19:fault:process-died:"+where, "write-error",
+			fmt.Sprintf("history %v: physical write %d (%s of op %d %s) returns an I/O error: the node process does not survive (exit %d): %s", hist, p, where, step, hist[step], code, out), cs)
+		return
+	}
+	judge := func(file, when string) {
+		var ob crashObsOut
+		b, _ := os.ReadFile(filepath.Join(d, file))
+		json.Unmarshal(b, &ob)
+		switch {
+		case len(ob.PreFails) == 0:
+			c.Outcome("write-error->" + when + ":list before the operation")
+		case len(ob.PostFails) == 0:
+			c.Outcome("write-error->" + when + ":list after the operation")
+		default:
+			c.Outcome("write-error->" + when + ":inconsistent")
+			c.Violation("C19:fault:torn:"+when+":"+where, "write-error",
+				fmt.Sprintf("history %v: physical write %d (%s of op %d %s) returns an I/O error and the process continues (operation reported %q); %s the group chain is neither the list before the operation (%v) nor the list after it (%v)",
+					hist, p, where, step, hist[step], ob.Reported, map[string]string{"live": "in the running process", "restart": "after a restart"}[when], ob.PreFails, ob.PostFails), cs)
+		}
+	}
+	judge("obs_live.json", "live")
+	code, out = runCrashChild(d, nil, "observe", csv, fmt.Sprint(step), "obs.json")
+	if code != 0 {
+		c.Violation("C19:fault:restart-died:"+where, "write-error",
+			fmt.Sprintf("history %v: physical write %d (%s of op %d %s) returned an I/O error; after that the node cannot restart: %s", hist, p, where, step, hist[step], out), cs)
+		return
+	}
+	judge("obs.json", "restart")
+	c.Count("write_error_points", 1)
+	c.Nontrivial(fmt.Sprintf("fault|%s|%d", csv, p))
+}
+
 type crashCase struct {
 	Hist    []string `json:"crash_history"`
 	CrashAt int      `json:"crash_at"`
+	Fault   bool     `json:"fault,omitempty"` // the write returns an error instead of the process dying
 }
 
 func runCrashChild(dir string, env []string, args ...string) (int, string) {
@@ -236,6 +325,13 @@ func crashPart(c *fw.Ctx, only *crashCase) {
 			if c.Expired() {
 				c.Cap("time budget: not every crash point explored")
 				return
+			}
+			if only == nil || only.Fault {
+				seq++
+				faultPoint(c, hist, csv, p, &ro, seq)
+				if only != nil {
+					continue
+				}
 			}
 			seq++
 			d := filepath.Join(c.Scratch, fmt.Sprintf("c19crash%d", seq))
